@@ -92,6 +92,18 @@ impl C05 {
             rats.push(Rat::new(BigInt::from(5), num_traits::pow(BigInt::from(12), 1003) * BigInt::from(23)));
             rats.push(Rat::new(BigInt::from(-7), num_traits::pow(ten, 1200) * BigInt::from(13)));
         }
+        // numerators beyond a thousand bits over denominators on both sides of every digit-count
+        // boundary (a digit count of the quotient taken from the digit counts of its two parts is
+        // off by one for part of each decade), in three bases' own powers
+        for b in if thorough { vec![10u32, 12, 7] } else { vec![10u32] } {
+            let bk = num_traits::pow(BigInt::from(b), 400);
+            for q in if thorough { vec![7i64, 8, 9, 10, 63, 64, 65, 99, 100, 511, 512, 999] } else { vec![8i64, 10, 65, 999] } {
+                rats.push(Rat::new(bk.clone() * BigInt::from(q) + BigInt::one(), BigInt::from(q)));
+            }
+            let bj = num_traits::pow(BigInt::from(b), 395);
+            rats.push(Rat::new(bk.clone() * BigInt::from(7000) + BigInt::one(), bj.clone() * BigInt::from(65) + BigInt::one()));
+            rats.push(Rat::new(-(bk.clone() * BigInt::from(3) + BigInt::one()), bj * BigInt::from(8) + BigInt::one()));
+        }
         // thousands of bits
         let big = (BigInt::one() << 4096usize) + BigInt::one();
         rats.push(Rat::from_integer(big.clone()));
